@@ -525,6 +525,26 @@ theorem T_exists_unique {ε τ₀ : ℝ} (hε : 0 < ε) (hlo : 1 - 4 / ε ≤ τ
   rintro a' ⟨ha', he'⟩
   exact (BivFit.T_strictMonoOn (τ := τ₀) hε).injOn ha' ha.1 (he'.trans he.symm)
 
+/-- On the NEGATIVE branch the code's map is not monotone (for `0 < ε ≤ 1`): it tends to `−∞` as
+`θ → 0⁻`.  Explicitly `τ_ε(−2) > −2 > −4 ≥ τ_ε(−J(ε))` with `−2 < −J(ε) < 0`. -/
+theorem tauEps_not_monotone_neg {ε : ℝ} (hε : 0 < ε) (hε1 : ε ≤ 1) :
+    ∃ a b : ℝ, a < b ∧ b < 0 ∧ tauEps ε b < tauEps ε a := by
+  have hc0 : 0 < J ε := by
+    have := (debye1_mem_Ioo hε).1
+    rw [debye1_eq] at this
+    have := mul_pos this hε
+    rwa [div_mul_cancel₀ _ hε.ne'] at this
+  have hc1 : J ε ≤ 1 := (J_le_self hε.le).trans hε1
+  refine ⟨-2, -J ε, by linarith, by linarith, ?_⟩
+  rw [tauEps_eq (by linarith : -J ε ≠ 0), tauEps_eq (by norm_num : (-2 : ℝ) ≠ 0)]
+  have h1 : tau (-J ε) < 0 := tau_neg_of_neg (by linarith)
+  have h2 : -1 < tau (-2) := neg_one_lt_tau (by norm_num)
+  have e1 : 4 * J ε / (-J ε) ^ 2 = 4 / J ε := by field_simp
+  have e2 : 4 * J ε / (-2 : ℝ) ^ 2 = J ε := by ring
+  rw [e1, e2]
+  have h3 : 4 ≤ 4 / J ε := by rw [le_div_iff₀ hc0]; linarith
+  linarith
+
 /-! ## bridges to the generated code -/
 
 theorem tauEps_zero (θ : ℝ) : tauEps 0 θ = tau θ := rfl
